@@ -49,6 +49,11 @@ claimed = {
          "Sequences of 2-6 policy states produced by the honest root quorum (stage+apply: root rotation, thresholds, versions, rules, delegated files) or by an adversary writing straight onto refs/gittuf/policy (forged rule file under the old root envelope, root signed by too few/only new keys, version rollback, wholesale replay, vanished or unreachable rule file, wrongly signed delegated file), with pushes placed before/between/after. Every verification mode and LoadCurrentState must fail when a state it depends on breaks a chain condition and must succeed on valid chains with authorised entries.",
          "SimStore; successor roots not self-signed by their own role are unspecified; controller metadata not generated.",
          "DESIGN.md §6 C02"),
+ "C09": ("exploration",
+         "deterministic simulation: seeded races between approvers, code-review bot, adversarial attestation writes and the recorder; reference model counting each principal once from ground truth",
+         "Changes on a branch whose rule needs 2-3 of 4 persons: authorizations by trusted/untrusted keys, code-review approvals signed by the app key or another key naming approvers and dismissed approvers, app trust toggled by policy edits, approvals recorded before or after the entry and for exact or stale changes, plus misfiled and signature-lifted attestations of both kinds written straight into the attestations tree. Verdicts are compared with the model (each principal once across entry signature, authorization, code-review identity; only the preceding attestation state; only statements bound to exactly that change).",
+         "SimStore; GitHub API replaced by injected attestations; acceptance is demanded only when no attestation was planted by a non-client.",
+         "DESIGN.md §6 C09"),
 }
 
 not_applicable = {
